@@ -9,26 +9,17 @@ Property theorems only; helper lemmas are in `DelbModel/Lemmas/Prefixes.lean`.
 -/
 namespace Delb.Ser
 
-/-- `Namespaces(...)`: an accepted mapping has unique, colon-free prefixes … -/
+/-- `Namespaces(...)`: an accepted mapping has unique, colon-free prefixes and binds the two
+    global prefixes `xml` and `xmlns` to their namespaces … -/
 theorem c13_normalize_ok (decls : List (Option String × String)) (nsmap : Dict)
     (hcolon : ∀ d ∈ decls, ∀ p, d.1 = some p → ':' ∉ p.toList)
     (h : normalizeDecls decls = .ok nsmap) : NsMapOk nsmap :=
   normalizeDecls_nsMapOk hcolon h
 
--- FALSE: decls = [(some "a", "urn:x"), (some "a", "urn:y")] is accepted (the two namespaces
--- differ, so no "declared redundantly" error) and the second `dset` overwrites the first:
--- `dget nsmap "a" = some "urn:y"` although `(some "a", "urn:x") ∈ decls`.  The model takes the
--- declarations as a list, Python takes a `Mapping` whose keys are unique; the statement lacks
--- that hypothesis (a slip in the statement, not a defect of the modelled code).
--- /-- … keeps the global `xml` binding and every prefix the caller declared -/
--- theorem c13_normalize_keeps (decls : List (Option String × String)) (nsmap : Dict)
---     (h : normalizeDecls decls = .ok nsmap) :
---     dget nsmap "xml" = some Gen.xmlNamespace ∧
---     ∀ p ns, (some p, ns) ∈ decls → dget nsmap p = some ns ∧ lookupPrefix nsmap ns = some p
-
-/-- … keeps the global `xml` binding and every prefix the caller declared (the declarations
-    are a mapping: no prefix occurs twice) -/
-theorem c13_normalize_keeps_partial (decls : List (Option String × String)) (nsmap : Dict)
+/-- … keeps the global `xml` binding and every prefix the caller declared.  `hnodup`: the
+    declarations are a Python `Mapping`, so no prefix (key) occurs twice; the model takes them
+    as a list, and for a list with a repeated prefix the later entry overwrites the earlier -/
+theorem c13_normalize_keeps (decls : List (Option String × String)) (nsmap : Dict)
     (hnodup : (decls.map (·.1)).Nodup)
     (h : normalizeDecls decls = .ok nsmap) :
     dget nsmap "xml" = some Gen.xmlNamespace ∧
@@ -42,30 +33,15 @@ theorem c13_no_assertion (nsmap : Dict) (hn : NsMapOk nsmap) (root : Node)
     collect nsmap root orders ≠ .error (.assertion site) :=
   (collect_spec hn root orders).1 site
 
--- FALSE: nsmap = [("foo", "")], root = .tag "" "r" [] [], orders = [[""]] (valid) gives
--- `collect … = .ok [("", "")]`; `PMapOk.caller` with ns = "", q = "foo" demands
--- `dget m "" = some "foo:"`, but the empty namespace always gets the empty prefix (`collectOne`
--- handles `ns == ""` before it consults the caller's mapping; `PMapOk.emptyNs` says the same).
--- `NsMapOk` does not exclude a non-empty prefix bound to the empty namespace, and
--- `normalizeDecls [(some "foo", "")]` is accepted by the model.  All other fields of `PMapOk`
--- hold, and `caller` holds for every ns ≠ "" (`Inv.caller` in Lemmas/Prefixes.lean).
--- /-- every namespace of the tree gets exactly one prefix, different namespaces get different
---     prefixes, the empty namespace only the empty prefix, and a namespace the caller bound to a
---     non-empty prefix keeps it — for every order -/
--- theorem c13_collect_ok (nsmap : Dict) (hn : NsMapOk nsmap) (root : Node)
---     (orders : List (List String)) (ho : ordersValid root orders = true) (m : Dict)
---     (h : collect nsmap root orders = .ok m) : PMapOk nsmap m root
-
 /-- every namespace of the tree gets exactly one prefix, different namespaces get different
-    prefixes, the empty namespace only the empty prefix, and a namespace the caller bound to a
-    non-empty prefix keeps it — for every order; provided the caller did not bind a non-empty
-    prefix to the empty namespace -/
-theorem c13_collect_ok_partial (nsmap : Dict) (hn : NsMapOk nsmap) (root : Node)
+    prefixes, the empty namespace only the empty prefix, a non-empty namespace the caller bound
+    to a non-empty prefix keeps it, and the prefixes `xml:` / `xmlns:` are used for the XML /
+    XMLNS namespace only — for every order -/
+theorem c13_collect_ok (nsmap : Dict) (hn : NsMapOk nsmap) (root : Node)
     (orders : List (List String)) (ho : ordersValid root orders = true) (m : Dict)
-    (hempty : ∀ q, lookupPrefix nsmap "" = some q → q = "")
     (h : collect nsmap root orders = .ok m) : PMapOk nsmap m root := by
   obtain ⟨hinv, hkeys⟩ := (collect_spec hn root orders).2 m h
-  exact hinv.pmapOk (fun ns hns => hkeys ns (orders_cover ho ns hns)) hempty
+  exact hinv.pmapOk hn (fun ns hns => hkeys ns (orders_cover ho ns hns))
 
 /-- the `xml` and `xmlns` prefixes are never declared, every other collected prefix is declared
     exactly once with its namespace, and a default declaration is written only for a non-empty
@@ -92,5 +68,18 @@ example : collect [("xml", Gen.xmlNamespace), ("ns0", "urn:b")]
     (.tag "urn:a" "r" [⟨"urn:c", "k", []⟩] [.tag "urn:b" "e" [] []])
     [["urn:c", "urn:a"], ["urn:b"]]
     = .ok [("urn:a", ""), ("urn:c", "ns1:"), ("urn:b", "ns0:")] := by rfl
+
+/-- non-vacuity: a caller binding of a prefix to the empty namespace (`{"foo": ""}`) is accepted
+    and has no effect — the empty namespace gets the empty prefix -/
+example : collect [("xml", Gen.xmlNamespace), ("xmlns", Gen.xmlnsNamespace), ("foo", "")]
+    (.tag "" "r" [] []) [[""]] = .ok [("", "")] := by rfl
+
+/-- non-vacuity: an accepted mapping satisfies `NsMapOk`, and `collect` succeeds with it (here the
+    caller's default namespace has to yield the empty prefix to the empty namespace) -/
+example : ∃ nsmap, normalizeDecls [(some "foo", ""), (none, "urn:a")] = .ok nsmap ∧ NsMapOk nsmap ∧
+    collect nsmap (.tag "urn:a" "r" [⟨"", "k", []⟩] [.tag "urn:b" "e" [] []])
+      [["", "urn:a"], ["urn:b"]] = .ok [("", ""), ("urn:a", "ns0:"), ("urn:b", "ns1:")] := by
+  refine ⟨_, rfl, ?_, by rfl⟩
+  exact c13_normalize_ok [(some "foo", ""), (none, "urn:a")] _ (by decide) rfl
 
 end Delb.Ser
